@@ -58,7 +58,7 @@ def canon(obj):
 
 DECODE_CHILD = r"""
 import json, sys
-sys.path.insert(0, "/verif")
+sys.path.insert(0, "__VERIF_ROOT__")
 from ceos_alos2.sar_image import caching
 from harness import codeccanon
 docs = json.load(open(sys.argv[1]))
@@ -99,3 +99,8 @@ def differences(a, b, path=""):
 
     rec(a, b, path)
     return out
+
+
+import os as _os
+
+DECODE_CHILD = DECODE_CHILD.replace("__VERIF_ROOT__", _os.path.dirname(_os.path.dirname(_os.path.abspath(__file__))))
